@@ -1,0 +1,40 @@
+//go:build verif
+
+// Contracts for gzv (contract-based deductive verification, /verif). Comment-only file.
+package encoding
+
+// ---------------------------------------------------------------------------------------------
+// C17 (funnel, YAML side): the YAML document is normalised by ONE function, applied uniformly at every nesting level —
+// every element of a sequence and every value of a mapping goes through the same normaliser as the top-level value, and
+// every mapping key becomes its string representation. norm is the abstract normaliser (what toStringKeyMap computes).
+// ---------------------------------------------------------------------------------------------
+//@ func toStringKeyMap
+//@   property C17
+//@   pure
+//@   trusted
+//@   modifies nothing
+
+//@ func convertSlice
+//@   property C17
+//@   ensures len(result) == len(in) && forall(j.(int), implies(0 <= j && j < len(in), result[j] == toStringKeyMap(in[j])))
+//@   modifies nothing
+//@   allocates
+//@   loop 0: modifies elems(res)
+//@   loop 0: invariant len(res) == len(in) && forall(j.(int), implies(0 <= j && j < idx, res[j] == toStringKeyMap(in[j])))
+
+//@ func convertKeyToString
+//@   property C17
+//@   requires in != nil
+//@   ensures forall(k.(any), implies(inDom(in, k), inDom(result, lang.Repr(k))))
+//@   ensures forall(s.(string), implies(inDom(result, s), exists(k.(any), inDom(in, k) && s == lang.Repr(k) )))
+//@   modifies nothing
+//@   allocates
+//@   loop 0: modifies mapof(res)
+//@   loop 0: invariant res != nil && forall(k.(any), implies(seen[k], inDom(res, lang.Repr(k))))
+//@   loop 0: invariant forall(s.(string), implies(inDom(res, s), exists(k.(any), seen[k] && s == lang.Repr(k))))
+
+// the YAML converter encodes exactly the normalised document; the TOML converter encodes the decoded document as is
+//@ func YamlToJson
+//@   property C17
+//@   ghost at after Unmarshal#0: yv = val
+//@   call encodeToJSON#0: assert arg_val == toStringKeyMap(val)
